@@ -387,17 +387,31 @@ fn build_other(kind: &str, rng: &mut Rng, sim: &mut Sim, ck: &mut Checker, v6: b
         }
         // C11: always-answering contacts and contacts that go silent for good, hours of idling
         "fresh" => {
-            let n = rng.range(1, 8) as usize;
+            // 1..8 known nodes as the property's quantifier says; one case in three goes beyond
+            // (12..14 nodes spread over the id space so that still no bucket is full: the statement
+            // itself only presupposes that)
+            let big = rng.chance(1, 2);
+            let n = if big { rng.range(12, 14) } else { rng.range(1, 8) } as usize;
             let dur = if thorough { rng.range(3600, 5 * 3600) } else { rng.range(1500, 3000) } as u128 * S;
-            for i in 0..n {
-                let policy = if i > 0 && rng.chance(1, 3) { Policy::GoodUntil(t0 + rng.below((dur / S) as u64 / 2) as u128 * S) } else { Policy::Good };
-                sim.peers.push(SimPeer { id: rng.bytes(20), addr: sim_addr(v6, i, 6881), policy, store: HashMap::new(), token: vec![b't', i as u8], last_answer: None });
-            }
             let me = rng.bytes(20);
+            for i in 0..n {
+                // beyond 10 nodes at most one goes silent, so that the node stays well connected
+                // (>= 10 good nodes: no periodic re-bootstrap comes to the refresh's help)
+                let silent_ok = i > 0 && (!big || i == 1);
+                let policy = if silent_ok && rng.chance(1, 3) { Policy::GoodUntil(t0 + rng.below((dur / S) as u64 / 2) as u128 * S) } else { Policy::Good };
+                let mut id = rng.bytes(20);
+                if n > 8 {
+                    // shared-prefix class i % 4 with the local id: at most 3 nodes per bucket
+                    let c = i % 4;
+                    for b in 0..c { let m = 0x80u8 >> b; id[0] = (id[0] & !m) | (me[0] & m); }
+                    let m = 0x80u8 >> c; id[0] = (id[0] & !m) | (!me[0] & m);
+                }
+                sim.peers.push(SimPeer { id, addr: sim_addr(v6, i, 6881), policy, store: HashMap::new(), token: vec![b't', i as u8], last_answer: None });
+            }
             let a = real_addr(v6, 0);
             sim.reals.push((0, me.clone(), a));
             // single-contact regime (periodic re-bootstrap) or well-connected
-            let k = if rng.chance(1, 3) { 1 } else { n };
+            let k = if !big && rng.chance(1, 3) { 1 } else { n };
             let nodes: Vec<String> = sim.peers.iter().take(k).map(|p| addr_str(&p.addr)).collect();
             sim.end = t0 + dur;
             sim.lat_ms = (5, 250);
